@@ -153,6 +153,144 @@ def run(ctx):
     return __doc__.split('\n\n', 1)[1]
 
 
+def _linear(f, e, vals):
+    """e as {symbol: coefficient} (symbols: var ids, 1 for the constant term) given vals {var id: linear form}; None if not linear"""
+    e = strip(e)
+    cv = const_val(e)
+    if cv is not None:
+        return {1: cv}
+    k = e.get('k')
+    if k == 'cast':
+        return _linear(f, e['e'], vals)
+    if k == 'var':
+        if e['id'] in vals:
+            return dict(vals[e['id']]) if vals[e['id']] is not None else None
+        return None
+    if k == 'bin' and e.get('op') in ('+', '-'):
+        a, b = _linear(f, e['x'], vals), _linear(f, e['y'], vals)
+        if a is None or b is None:
+            return None
+        out = dict(a)
+        for sym, c in b.items():
+            out[sym] = out.get(sym, 0) + (c if e['op'] == '+' else -c)
+        return dict((s_, c) for s_, c in out.items() if c != 0)
+    if k == 'un' and e.get('op') == '&' and strip_lv(e['e']).get('k') == 'idx':
+        t = strip_lv(e['e'])
+        a, b = _linear(f, t['b'], vals), _linear(f, t['i'], vals)
+        if a is None or b is None:
+            return None
+        out = dict(a)
+        for sym, c in b.items():
+            out[sym] = out.get(sym, 0) + c
+        return out
+    return None
+
+
+def partial_loop_verdict(ctx, prog, f, lp, nv, call):
+    """Retry loop around one OS transfer call returning n (bytes moved).  With D = bytes moved so far, every local is
+    init + c*D (c = +1 when the body adds n to it once, -1 when it subtracts n once, 0 when it is not written).  Decided:
+    the buffer argument is buffer0 + D, the length argument is size0 - D, and the loop goes on exactly while D < size0
+    (the continue conditions are evaluated on a grid of (D, size0))."""
+    import bytesets
+    buf_p, size_p = f['params'][0], f['params'][1]
+    D = 'D'
+    # linear forms before the loop: parameters are their own symbols; locals declared before the loop take their initialiser
+    vals = {buf_p['id']: {buf_p['id']: 1}, size_p['id']: {size_p['id']: 1}}
+    in_loop = set(id(x) for x in ir.walk_stmts(lp))
+    for st in ir.walk_stmts(f['body']):
+        if st.get('k') == 'decl' and id(st) not in in_loop and st.get('l', 0) <= lp.get('l', 0):
+            for v in st['vars']:
+                if v.get('init') is not None:
+                    vals[v['id']] = _linear(f, v['init'], vals)
+    # updates by n inside the loop
+    coef = {}
+    loop_exprs = list(ir.stmt_exprs(lp['body'])) + (list(walk_expr(lp['inc'])) if lp.get('inc') else [])
+    for e in loop_exprs:
+        tgt = None
+        if e.get('k') == 'bin' and e.get('op', '').endswith('=') and e['op'] not in ('==', '!=', '<=', '>='):
+            tgt = strip_lv(e['x'])
+        elif e.get('k') == 'un' and e.get('op') in ('post++', 'pre++', 'post--', 'pre--'):
+            tgt = strip_lv(e['e'])
+        if tgt is None or tgt.get('k') != 'var' or tgt['id'] == nv['id']:
+            continue
+        vid = tgt['id']
+        delta = None
+        if e.get('k') == 'bin' and e['op'] in ('+=', '-='):
+            r = _linear(f, e['y'], {nv['id']: {'n': 1}})
+            if r == {'n': 1}:
+                delta = 1 if e['op'] == '+=' else -1
+        elif e.get('k') == 'bin' and e['op'] == '=':
+            r = _linear(f, e['y'], {nv['id']: {'n': 1}, vid: {'self': 1}})
+            if r is not None and r.get('self') == 1 and set(r) <= {'self', 'n'} and r.get('n') in (1, -1):
+                delta = r['n']
+        if delta is None or vid in coef:
+            coef[vid] = None          # written in a way that is not one +/- n per iteration
+        else:
+            coef[vid] = delta
+    ctx.evaluations += 3
+
+    def at_progress(x):
+        """linear form of expression x at progress D"""
+        cur = {}
+        for vid, lf in vals.items():
+            if lf is None:
+                cur[vid] = None
+                continue
+            c = coef.get(vid, 0)
+            if c is None:
+                cur[vid] = None
+                continue
+            g_ = dict(lf)
+            if c:
+                g_[D] = g_.get(D, 0) + c
+            cur[vid] = g_
+        return _linear(f, x, cur)
+    buf, ln = at_progress(call['a'][1]), at_progress(call['a'][2])
+    if buf is None or ln is None:
+        return 'undecided', 'buffer / length argument of the transfer call is not a linear form of the parameters and the progress'
+    want_buf, want_len = {buf_p['id']: 1, D: 1}, {size_p['id']: 1, D: -1}
+    name = {buf_p['id']: buf_p['n'], size_p['id']: size_p['n'], D: 'transferred', 1: '1'}
+    def show(lf):
+        return ' + '.join('%s*%s' % (c, name.get(s_, s_)) for s_, c in sorted(lf.items(), key=str)) or '0'
+    if buf != want_buf:
+        return 'bad', 'the buffer argument is %s, expected %s' % (show(buf), show(want_buf))
+    if ln != want_len:
+        return 'bad', 'the length argument is %s, expected %s' % (show(ln), show(want_len))
+    # continue conditions, evaluated after the updates of an iteration
+    conds = []
+    if lp.get('c') is not None:
+        conds.append((lp['c'], True))
+    body = lp['body']['s'] if lp['body'].get('k') == 'block' else [lp['body']]
+    seen_update = False
+    for st in body:
+        es = list(ir.stmt_exprs(st))
+        if any(e.get('k') == 'bin' and e.get('op') in ('+=', '-=', '=') and strip_lv(e['x']).get('k') == 'var' and coef.get(strip_lv(e['x'])['id']) for e in es):
+            seen_update = True
+            continue
+        if seen_update and st.get('k') == 'if' and not st.get('else') and q.always_exits(st['then']) and any(x.get('k') in ('break', 'return') for x in ir.walk_stmts(st['then'])):
+            conds.append((st['c'], False))
+    if not conds:
+        return 'undecided', 'no continue condition found for the retry loop'
+    tracked = [vid for vid, lf in vals.items() if lf is not None and coef.get(vid, 0) is not None]
+    try:
+        for S in range(1, 7):
+            for d in range(0, S + 1):
+                env = {}
+                for vid in tracked:
+                    lf = vals[vid]
+                    env[vid] = lf.get(1, 0) + lf.get(size_p['id'], 0) * S + lf.get(buf_p['id'], 0) * 1000 + coef.get(vid, 0) * d
+                # a variable declared before the loop but written irregularly must not be consulted
+                ev = bytesets.Evaluator(prog, f, env)
+                ev.depth = 8          # do not read through single-assignment initialisers: values come from env only
+                goes_on = all(bool(ev.ev(c)) == pol for c, pol in conds)
+                ctx.evaluations += 1
+                if goes_on != (d < S):
+                    return 'bad', 'with %d of %d bytes transferred the loop %s' % (d, S, 'goes on (transfers past the total)' if goes_on else 'stops (returns early)')
+    except bytesets.Undecidable as u:
+        return 'undecided', 'continue condition not evaluable: %s' % u
+    return 'ok', 'buffer = %s, length = %s, loop continues exactly while transferred < %s' % (show(buf), show(ln), size_p['n'])
+
+
 def check_partial(ctx, prog, rule='C16.partial', files=True):
     """The blocking read/write loops of Socket_ complete partial transfers: every retry passes the not-yet-transferred
     remainder (buffer position and byte count both advanced by what the OS call returned)."""
@@ -175,33 +313,13 @@ def check_partial(ctx, prog, rule='C16.partial', files=True):
                 ctx.undecided(rule, f['pq'], role, fwhere(f), 'no single OS transfer call inside a retry loop (found %d)' % len(ios))
                 continue
             lp, nv, call = ios[0]
-            # variables advanced by the returned count inside the loop
-            adv = set()
-            for e in ir.stmt_exprs(lp['body']):
-                if e.get('k') == 'bin' and e.get('op') in ('+=', '-=', '='):
-                    lhs = strip_lv(e['x'])
-                    if lhs.get('k') == 'var' and any(w.get('k') == 'var' and w.get('id') == nv['id'] for w in walk_expr(e['y'])):
-                        if e['op'] != '=' or any(w.get('k') == 'var' and w.get('id') == lhs['id'] for w in walk_expr(e['y'])):
-                            adv.add(lhs['id'])
-            buf, ln = call['a'][1], call['a'][2]
-            def uses_adv(x):
-                return any(w.get('k') == 'var' and w.get('id') in adv for w in walk_expr(x))
-            ctx.evaluations += 3
-            okb, okl = uses_adv(buf), uses_adv(ln)
-            # the loop continues while (accumulated < TOTAL) with TOTAL invariant in the loop, or while (remaining > 0)
-            okc = False
-            lc = strip(lp.get('c') or {})
-            if lc.get('k') == 'bin' and lc.get('op') in ('<', '>', '!=', '<=', '>='):
-                xs, ys = strip(lc['x']), strip(lc['y'])
-                xa = xs.get('k') == 'var' and xs.get('id') in adv
-                ya = ys.get('k') == 'var' and ys.get('id') in adv
-                if xa != ya:
-                    other = ys if xa else xs
-                    okc = (other.get('k') == 'var' and other.get('id') not in adv) or const_val(other) == 0
-            ctx.check(okb and okl and okc, rule, f['pq'], role, fwhere(f, call['l']),
-                      'buffer position, byte count and loop condition all advance with the returned count',
-                      'after a short transfer the retry does not pass exactly the remainder / stop exactly at the total: buffer argument advances=%s, length argument advances=%s, '
-                      'loop condition compares the progress with a loop-invariant total (or the remainder with 0)=%s (`%s`, condition `%s`): following values are over-read/over-written, skipped, or the read returns early' % (okb, okl, okc, pe(call), pe(lp.get('c'))))
+            verdict, text = partial_loop_verdict(ctx, prog, f, lp, nv, call)
+            if verdict == 'ok':
+                ctx.ok(rule, f['pq'], role, fwhere(f, call['l']), text)
+            elif verdict == 'bad':
+                ctx.violation(rule, f['pq'], role, fwhere(f, call['l']), 'after a short transfer the retry does not pass exactly the remainder / stop exactly at the total: %s (`%s`): following values are over-read/over-written, skipped, or the transfer returns early' % (text, pe(call)))
+            else:
+                ctx.undecided(rule, f['pq'], role, fwhere(f, call['l']), text)
     ctx.floor(rule, found, 2)
     if not files:
         return
